@@ -11,11 +11,11 @@
 (*        (+ suffix, + "MoqParam" if reserved)                               *)
 (*     4. name equals some import's qualifier -> name += "MoqParam"          *)
 (*     5. name taken by a variable, or marked conflicted ->                  *)
-(*        resolveVarNameConflict: smallest free number; the first clash      *)
-(*        renames the earlier variable to <name>1 and yields <name>2 --      *)
-(*        without looking whether <name>2 is free, and dereferencing a nil   *)
-(*        pointer when the stem is only "conflicted" and no variable          *)
-(*        carries it any more                                                *)
+(*        resolveVarNameConflict: smallest number free among variables and   *)
+(*        import qualifiers; the first clash moves the earlier variable to   *)
+(*        <name>1 if it still carries the bare name (before the fixes        *)
+(*        recorded as KF-07/KF-08 this step could crash or hand out a taken  *)
+(*        <name>2; the field "crashed" is kept for the trace format)         *)
 (*                                                                           *)
 (* Function-style model: the result of a method is the SET of possible       *)
 (* outcomes (registry map-order choices), each with the final variable       *)
@@ -30,16 +30,22 @@ EmptyScope == [names |-> <<>>, conflicted |-> {}, crashed |-> FALSE]
 HasVar(sc, n) == \E i \in DOMAIN sc.names : sc.names[i] = n
 FirstVar(sc, n) == CHOOSE i \in DOMAIN sc.names : sc.names[i] = n /\ \A j \in DOMAIN sc.names : sc.names[j] = n => i <= j
 
-(* smallest k >= 1 such that no variable is called stem+k *)
-RECURSIVE FreeNum(_, _, _)
-FreeNum(sc, stem, k) == IF HasVar(sc, stem \o ToString(k)) THEN FreeNum(sc, stem, k + 1) ELSE k
+(* smallest k' >= k such that neither a variable nor an import qualifier is *)
+(* called stem+k'                                                            *)
+IsQual(reg, n) == \E p \in DOMAIN reg.imp : Qual(reg.imp[p]) = n
+RECURSIVE FreeNum(_, _, _, _)
+FreeNum(sc, reg, stem, k) ==
+    IF HasVar(sc, stem \o ToString(k)) \/ IsQual(reg, stem \o ToString(k)) THEN FreeNum(sc, reg, stem, k + 1) ELSE k
 
-ResolveVarNameConflict(sc, stem) ==
-    LET k == FreeNum(sc, stem, 1) IN
-    IF k = 1
-    THEN IF ~HasVar(sc, stem)
-         THEN [sc |-> [sc EXCEPT !.crashed = TRUE], name |-> stem]            \* conflict == nil, conflict.Name panics
-         ELSE [sc |-> [sc EXCEPT !.names[FirstVar(sc, stem)] = stem \o "1", !.conflicted = @ \cup {stem}], name |-> stem \o "2"]
+(* The loop of resolveVarNameConflict: candidates stem+1, stem+2, ... are    *)
+(* skipped while taken; if the first free candidate is stem+1 and a variable *)
+(* still carries the bare stem, that variable moves to stem+1 (the stem is   *)
+(* then "conflicted") and the search goes on for the new variable.           *)
+ResolveVarNameConflict(sc, reg, stem) ==
+    LET k == FreeNum(sc, reg, stem, 1) IN
+    IF k = 1 /\ HasVar(sc, stem)
+    THEN LET sc1 == [sc EXCEPT !.names[FirstVar(sc, stem)] = stem \o "1", !.conflicted = @ \cup {stem}]
+         IN [sc |-> sc1, name |-> stem \o ToString(FreeNum(sc1, reg, stem, 2))]
     ELSE [sc |-> sc, name |-> stem \o ToString(k)]
 
 (* steps 2-5 for one variable, given the registry after step 1 and the       *)
@@ -64,7 +70,7 @@ AddVarNames(sc, reg, v, ownQuals) ==
              n0  == SuggestName(v)
              n1  == IF \E p \in DOMAIN reg.imp : Qual(reg.imp[p]) = n0 THEN n0 \o MoqParam ELSE n0
          IN IF HasVar(sc1, n1) \/ n1 \in sc1.conflicted
-            THEN LET r == ResolveVarNameConflict(sc1, n1) IN
+            THEN LET r == ResolveVarNameConflict(sc1, reg, n1) IN
                  IF r.sc.crashed THEN r.sc ELSE [r.sc EXCEPT !.names = Append(@, r.name)]
             ELSE [sc1 EXCEPT !.names = Append(@, n1)]
 
